@@ -134,6 +134,16 @@ def rr_program(rng):
             good = f"goal ub = new {r}.Use(amount: {num_text(min(c, over))}, start: {num_text(base + 20)}, end: {num_text(base + 26)}{dur});"
         brs = [bad, good] if rng.random() < 0.5 else [good, bad]
         lines.append("{ " + brs[0] + " } or { " + brs[1] + " }")
+    # a lone use that only fits some of the instances: an instance with a single (candidate) atom must be swept too
+    if rng.random() < 0.3:
+        cs = F(rng.choice([1, 2, 3]))
+        cb = cs + F(rng.choice([2, 5, 7]))
+        am = cs + F(rng.choice([1, 2]))
+        lines.insert(0, f"ReusableResource rs = new ReusableResource({num_text(cs)});")
+        lines.insert(1, f"ReusableResource rb = new ReusableResource({num_text(cb)});")
+        caps["rs"], caps["rb"] = cs, cb
+        lines.append("ReusableResource w;")
+        lines.append(f"fact uw = new w.Use(amount: {num_text(am)}, start: 300.0, end: 304.0);")
     return "\n".join(lines) + "\n", {"kind": "rr", "caps": caps, "atoms": atoms}
 
 
